@@ -383,7 +383,20 @@ def _unscheduled_observer(ctx):
     if ok:
         chk.ok("R05.e", rst.qualname, rst.loc(), "rebuilds one deque per job from instance.jobs")
     else:
-        raise AnalysisError(f"{rst.qualname}: reset shape not recognised")
+        bad_refill = [
+            n for n in own_nodes(rst.node)
+            if isinstance(n, ast.Call) and isinstance(n.func, ast.Attribute) and n.func.attr == "extendleft"
+            and n.args and not (isinstance(n.args[0], ast.Call) and ast.unparse(n.args[0].func) == "reversed")
+        ]
+        if bad_refill:
+            chk.violation(
+                "R05.e", rst, bad_refill[0],
+                "reset refills the job deques with extendleft(), which inserts in reverse: after a reset the "
+                "mirror lists a job's operations out of order and update pops the wrong one",
+                loc=rst.loc(bad_refill[0]),
+            )
+        else:
+            raise AnalysisError(f"{rst.qualname}: reset shape not recognised")
 
 
 def _deque_index(fi, tgt):
